@@ -176,7 +176,7 @@ theorem recover_total_prefix (c : Cfg) (hc : GoodR c.r) : Recovers c := by
       have := hst.writer
       split at this
       · rw [this]; exact List.prefix_refl _
-      · obtain ⟨_, _, h⟩ := this; rw [← h]; exact List.prefix_append _ _
+      · obtain ⟨_, _, h, _⟩ := this; rw [← h]; exact List.prefix_append _ _
     obtain ⟨img, himg, _, hshape⟩ := session_crash_image c nl evs i j k hcp
     rw [himg]
     rcases hshape with ⟨hnone, hdur⟩ | ⟨g, hg, hdg, hgf⟩
@@ -255,8 +255,8 @@ theorem append_after_recovery (c : Cfg) (hc : GoodR c.r) (ht : c.truncatesTornTa
   generalize afterLoad c (lossyImageAt {} (runActs c mk nl bs acts).ops i j k) = d at htemp hmain ⊢
   obtain ⟨bs0, w, o, hopen, hwinv, hp, hbuf, hwf0, hrec⟩ := open_repaired c hc ht nl bs blocks hwf d htemp hmain
   have hemp : items.isEmpty = false := by cases items <;> simp_all
-  obtain ⟨a, ha, pa⟩ := addManyW_spec mk hmk items (d.applyAll o) w (fileCells nl bs0) hwinv
-  obtain ⟨nbs, hn, hnwf, hget⟩ := syncW_spec c mk hmk _ _ _ pa.inv
+  obtain ⟨a, ha, pa⟩ := addManyW_spec mk hmk items (d.applyAll o) w (fileCells nl bs0) hwinv (by rw [hbuf]; exact maxEnts_pos)
+  obtain ⟨nbs, hn, hnwf, hget⟩ := syncW_spec c mk hmk _ _ _ pa.inv (Nat.le_of_lt pa.cnt)
   have hpath : (addManyW mk w items).1.path = .main := by rw [pa.path, hp]
   rw [hpath] at hget
   simp only [cWrite, hemp, ensureW, hopen, cSync, Bool.false_eq_true, if_false]
@@ -285,13 +285,11 @@ theorem holds_of_repaired (c : Cfg) (hc : GoodR c.r) (ht : c.truncatesTornTail =
 /-! ### The code as it is: closed witnesses -/
 
 /-- encoder of the witnesses: two payload bytes per block -/
-def mk2 : Mk := fun es => { hdr := [2, 0, 0, 0, 0, 0, 0, 0, 0, 0, 0, 0, 0, 0, 0, 0], plen := 2, ents := es }
+def mk2 : Mk := mkP 2
 
-theorem mk2_ok : MkOk mk2 := by
-  intro es _
-  exact ⟨⟨rfl, rfl, by show 0 < 2; omega⟩, rfl⟩
+theorem mk2_ok : MkOk mk2 := mkP_ok 2 (by decide)
 
-theorem mk2_wf (es : List Op) : (mk2 es).WF := ⟨rfl, rfl, by show 0 < 2; omega⟩
+theorem mk2_wf (es : List Op) (h : es ≠ []) (hl : es.length ≤ maxEnts) : (mk2 es).WF := (mk2_ok es h hl).1
 
 /-- **A torn payload is a load error** (for any reader that does not map the short read to EOF):
     whole blocks followed by a block cut inside its payload do not load at all. -/
@@ -318,12 +316,12 @@ theorem not_recovers_of_torn_error (c : Cfg) (h : c.r.tornDataIsEOF = false) (hs
   let acts : List Act := [.w [(Op.put 1 1, 200)], .sync, .w [(Op.put 2 2, 200)]]
   have hops : (runActs c mk2 0 100 acts).ops = sessionOps 0 [.blk b1, .hdr, .sync, .blk b2] := by
     simp [acts, runActs, Run.step, cWrite, cSync, ensureW, openWriter, Disk.get, addManyW, addW, flushW, syncW,
-      createOps, hs, mk2, Disk.applyAll, Disk.apply, Disk.set, splice, List.drop_of_length_le, sessionOps, evOps, b1, b2]
-  have hwf1 : ∀ b ∈ [b1], b.WF := by intro b hb; simp at hb; subst hb; exact mk2_wf _
+      createOps, hs, mk2, mkP, WSt.push, WSt.full, maxEnts, Disk.applyAll, Disk.apply, Disk.set, splice, List.drop_of_length_le, sessionOps, evOps, b1, b2]
+  have hwf1 : ∀ b ∈ [b1], b.WF := by intro b hb; simp at hb; subst hb; exact mk2_wf _ (by simp) (by decide)
   have hexp : sessionOps 0 [.blk b1, .hdr, .sync, .blk b2] =
       sessionOps 0 [.blk b1, .hdr, .sync] ++
         [.write .main 82 (hdrCells b2), .write .main 98 (payCells b2), .write .main 0 (fhCells 0)] := by
-    simp [sessionOps, evOps, createOps, b1, mk2]
+    simp [sessionOps, evOps, createOps, b1, mk2, mkP]
   have hlen7 : (sessionOps 0 [.blk b1, .hdr, .sync]).length = 7 := by simp [sessionOps, evOps, createOps]
   have hls : lastSyncIdx (sessionOps 0 [.blk b1, .hdr, .sync, .blk b2]) 8 = 7 := by
     simp [sessionOps, evOps, createOps, lastSyncIdx, FsOp.isSync]
@@ -337,7 +335,7 @@ theorem not_recovers_of_torn_error (c : Cfg) (h : c.r.tornDataIsEOF = false) (hs
     simp [evBlocks]
   have hse : syncedEntries c (sessionOps 0 [.blk b1, .hdr, .sync, .blk b2]) 8 = [Op.put 1 1] := by
     simp only [syncedEntries, hsf, loadEntries, loadFile_clean c.r 0 [b1] hwf1]
-    simp [entsOf, b1, mk2]
+    simp [entsOf, b1, mk2, mkP]
   rw [hse] at hsyn
   -- the image: first block whole, second cut one byte into its payload
   have himg : (afterLoad c (lossyImageAt {} (sessionOps 0 [.blk b1, .hdr, .sync, .blk b2]) 8 8 1)).main =
@@ -350,7 +348,7 @@ theorem not_recovers_of_torn_error (c : Cfg) (h : c.r.tornDataIsEOF = false) (hs
       simp [List.take_of_length_le, hlen7]
     have hget : (sessionOps 0 [.blk b1, .hdr, .sync, .blk b2])[8]? = some (.write .main 98 (payCells b2)) := by
       rw [hexp, List.getElem?_append_right (by omega), hlen7]; rfl
-    have hfl : (fileCells 0 [b1]).length = 82 := by simp [fileCells, render, nmCells, b1, mk2]
+    have hfl : (fileCells 0 [b1]).length = 82 := by simp [fileCells, render, nmCells, b1, mk2, mkP]
     have htemp : (lossyImageAt {} (sessionOps 0 [.blk b1, .hdr, .sync, .blk b2]) 8 8 1).temp = none := by
       simp only [lossyImageAt, Nat.le_refl, if_true]
       exact imageAt_onlyMain_temp _ (sessionOps_onlyMain _ _) 8 1
@@ -368,7 +366,7 @@ theorem not_recovers_of_torn_error (c : Cfg) (h : c.r.tornDataIsEOF = false) (hs
       rw [apply_write_main _ (fileCells 0 [b1] ++ hdrCells b2) rfl, h98, splice_end]
     simp only [lossyImageAt, Nat.le_refl, if_true, imageAt, hget, htake, Disk.applyAll_append, d7,
       Disk.applyAll_cons, Disk.applyAll_nil, Disk.applyTorn, d8, d9, h17, List.append_assoc]
-  have hload := torn_block_load_error c.r h 0 [b1] hwf1 b2 (mk2_wf _) 17 (by omega) (by show 17 < 16 + 2; omega)
+  have hload := torn_block_load_error c.r h 0 [b1] hwf1 b2 (mk2_wf _ (by simp) (by decide)) 17 (by omega) (by show 17 < 16 + 2; omega)
   have hrec0 : recover c (afterLoad c (lossyImageAt {} (sessionOps 0 [.blk b1, .hdr, .sync, .blk b2]) 8 8 1)) = [] := by
     simp [recover, mainIndex, himg, hload]
   rw [hrec0] at hrec
@@ -395,7 +393,8 @@ theorem torn_create_bricks (c : Cfg) (ht : c.truncatesTornTail = false) : ¬ App
   intro ha
   let acts : List Act := [.w [(Op.put 1 1, 10)]]
   have hops : (runActs c mk2 0 100 acts).ops = sessionOps 0 [] := by
-    simp [acts, runActs, Run.step, cWrite, ensureW, openWriter, Disk.get, addManyW, addW, createOps, sessionOps, evOps]
+    simp [acts, runActs, Run.step, cWrite, ensureW, openWriter, Disk.get, addManyW, addW, createOps, sessionOps, evOps,
+      WSt.push, WSt.full, maxEnts]
   have h := ha mk2 mk2_ok 0 100 acts 1 1 10 (by
     rw [hops]; exact ⟨by simp [sessionOps, evOps, createOps], by simp [lastSyncIdx, sessionOps, createOps, evOps, FsOp.isSync], by omega⟩)
     [(Op.put 3 3, 10)] (by simp)
@@ -425,7 +424,7 @@ theorem append_after_torn_tail_strands (c : Cfg) (ht : c.truncatesTornTail = fal
   let acts : List Act := [.w [(Op.put 1 1, 200)]]
   have hops : (runActs c mk2 0 100 acts).ops = sessionOps 0 [.blk b1] := by
     simp [acts, runActs, Run.step, cWrite, ensureW, openWriter, Disk.get, addManyW, addW, flushW, createOps,
-      sessionOps, evOps, mk2, b1]
+      sessionOps, evOps, mk2, mkP, WSt.push, WSt.full, maxEnts, b1]
   have h := ha mk2 mk2_ok 0 100 acts 3 3 1 (by
     rw [hops]; exact ⟨by simp [sessionOps, evOps, createOps], by simp [lastSyncIdx, sessionOps, createOps, evOps, FsOp.isSync], by omega⟩)
     [(Op.put 3 3, 200)] (by simp)
@@ -467,8 +466,8 @@ theorem append_after_torn_tail_strands (c : Cfg) (ht : c.truncatesTornTail = fal
     simp [openWriter, Disk.get, hhdr.headerOf, ht]
   have hwinv : WInv { main := some g, temp := none }
       { path := .main, pos := g.length, nl := 0, buf := [], bufSize := 0, bs := 100 } g := ⟨rfl, rfl, hhdr⟩
-  obtain ⟨a, hae, pa⟩ := addManyW_spec mk2 mk2_ok [(Op.put 3 3, 200)] _ _ _ hwinv
-  obtain ⟨nbs, hn, hnwf, hget⟩ := syncW_spec c mk2 mk2_ok _ _ _ pa.inv
+  obtain ⟨a, hae, pa⟩ := addManyW_spec mk2 mk2_ok [(Op.put 3 3, 200)] _ _ _ hwinv maxEnts_pos
+  obtain ⟨nbs, hn, hnwf, hget⟩ := syncW_spec c mk2 mk2_ok _ _ _ pa.inv (Nat.le_of_lt pa.cnt)
   rw [pa.path] at hget
   simp only [himg, cWrite, List.isEmpty_cons, Bool.false_eq_true, if_false, ensureW, hopen, cSync, List.nil_append,
     Disk.applyAll_nil] at h
@@ -486,7 +485,7 @@ theorem append_after_torn_tail_strands (c : Cfg) (ht : c.truncatesTornTail = fal
     cases hab : a ++ nbs with
     | nil => exact absurd hab hne
     | cons b' t => simp [render, blockCells, hdrCells_eq]
-  have hstr := loadEntries_strands c.r 0 [] (by simp) b1 (mk2_wf _) 17 (by omega) (by show 17 < 16 + 2; omega)
+  have hstr := loadEntries_strands c.r 0 [] (by simp) b1 (mk2_wf _ (by simp) (by decide)) 17 (by omega) (by show 17 < 16 + 2; omega)
     (render (a ++ nbs)) hrest
   have hg : g ++ render (a ++ nbs) = fileCells 0 [] ++ ((blockCells b1).take 17 ++ render (a ++ nbs)) := by
     simp [g, List.append_assoc]
@@ -495,7 +494,7 @@ theorem append_after_torn_tail_strands (c : Cfg) (ht : c.truncatesTornTail = fal
   have hr1 := recover_eq_loadEntries c _ _ hfin
   have hr0 : recover c { main := some g, temp := none } = [] := by
     rw [recover_eq_loadEntries c _ g rfl]
-    have := loadFile_base_tail c.r 0 [] (by simp) b1 (mk2_wf _) 17 (by show 17 < 16 + 2; omega)
+    have := loadFile_base_tail c.r 0 [] (by simp) b1 (mk2_wf _ (by simp) (by decide)) 17 (by show 17 < 16 + 2; omega)
     simp only [loadEntries, g, this]
     cases stopOk c.r (tailStop 17) <;> simp [entsOf, Index.replay]
   rw [hr1, hl0, hr0] at h
@@ -528,7 +527,8 @@ theorem C02_partial (c : RCfg) (h : c.shortHeaderIsEOF = true) (nl : Nat) (bs : 
 example : MkOk mk2 ∧ (runActs ⟨⟨true, true, false⟩, true, true, true, true, true, true, true⟩ mk2 0 100
     [.w [(Op.put 1 1, 200)], .sync]).ops.length = 7 := by
   refine ⟨mk2_ok, ?_⟩
-  simp [runActs, Run.step, cWrite, cSync, ensureW, openWriter, Disk.get, addManyW, addW, flushW, syncW, createOps, mk2]
+  simp [runActs, Run.step, cWrite, cSync, ensureW, openWriter, Disk.get, addManyW, addW, flushW, syncW, createOps, mk2, mkP,
+    WSt.push, WSt.full, maxEnts]
 
 /-! ### Decision over the extracted facts -/
 
